@@ -185,7 +185,8 @@ def check_case(ctx: Ctx, c: dict):
             elif mode == "max":
                 dd = n - 1
             elif mode == "script" and script:
-                dd = script.pop(0) % n
+                tok = script.pop(0)
+                dd = (n - 1) if tok == "max" else 0 if tok == "min" else tok % n
             else:
                 dd = ctx.rng.randrange(n)
             log.append((n, dd))
@@ -200,8 +201,16 @@ def check_case(ctx: Ctx, c: dict):
         draws = ",".join(str(x[1]) for x in log) or "-"
         cc = dict(c, draws=[x[1] for x in log])
         ctx.eq("gen_random_id", cc, str(n), d.ask(f"gen {sp(cb, u3)} {b} {e} {draws}"))
+        # K on the bounds themselves: the model's randbelow arguments for the same draws (a too small bound makes
+        # members unreachable although every id that IS produced agrees with the model)
+        ctx.eq("gen_random_id randbelow bounds", cc, f"{n} {','.join(str(x[0]) for x in log) or '-'}",
+               d.ask(f"genbounds {sp(cb, u3)} {b} {e} {draws}"))
+        if any(x[0] == 255 and len(log) >= 3 and i == len(log) - 1 for i, x in enumerate(log)):
+            ctx.count("gen:zero-red-branch")
         if d.ask(f"spec_member {sp(cb, u3)} {b} {e} {n}") != "1":
             ctx.violation("gen_random_id produced a non-member", cc, n, key="gen-non-member")
+    elif k == "gentree":
+        check_gentree(ctx, c)
     elif k == "dbfilter":
         ids = c["ids"]
         with tempfile.TemporaryDirectory(prefix="vc10") as td:
@@ -253,6 +262,114 @@ def check_case(ctx: Ctx, c: dict):
             ctx.eq("IDSpace.from_string", dict(c, s=t), impl, d.ask(f"ofstring {t}"))
     else:
         raise ValueError(k)
+
+
+def _walk_draw_tree(im, s, u, depth_limit=None, max_runs=400_000):
+    """Enumerate the draw tree of gen_random_id(s, u) with an odometer over scripted `randbelow` results.
+    depth_limit=None: every leaf is run -> yields (id, bounds, draws) per leaf.
+    depth_limit=-1: every prefix that stops one draw short of its leaf (last draw 0)."""
+    path = []
+    runs = 0
+    while True:
+        log = []
+        it = iter(path)
+
+        def randbelow(n, _it=it, _log=log):
+            dd = next(_it, 0)
+            _log.append((n, dd))
+            return dd
+
+        orig = im.secrets.randbelow
+        im.secrets.randbelow = randbelow
+        try:
+            n = s.gen_random_id(u)
+        finally:
+            im.secrets.randbelow = orig
+        runs += 1
+        if runs > max_runs:
+            raise OverflowError("draw tree too large")
+        yield n, [x[0] for x in log], [x[1] for x in log]
+        # next path: increment the last digit that can still grow (all digits, or all but the last)
+        digits = list(log if depth_limit is None else log[:-1])
+        while digits and digits[-1][1] + 1 >= digits[-1][0]:
+            digits.pop()
+        if not digits:
+            return
+        path = [x[1] for x in digits]
+        path[-1] += 1
+
+
+def check_gentree(ctx: Ctx, c: dict):
+    """"random generation only produces (and can produce all) members", decided on the whole draw tree.
+    gen_random_id is a deterministic function of the successive randbelow results, each in range(bound), so the ids it
+    can ever produce are exactly the outputs over all admissible draw sequences.
+      mode "exhaustive": every leaf is executed; the produced set must equal the member set of Spec.Layout.
+      mode "count":      (trees too large to execute) every path is executed up to its last draw; the number of
+                         leaves = sum of the last bounds. Fewer leaves than members => some member can never be
+                         produced (pigeonhole). The member count is Model.subspaceSize, which equals the number of
+                         Spec members by the theorems allIds_length / allIds_nodup / mem_allIds_iff_member."""
+    im = _mods()
+    d = ctx.driver("drv_ids")
+    cb, u3, b, e = c["cb"], c["u3"], c["b"], c["e"]
+    s = im.IDSpace(cb, u3)
+    u = im.IDSubspace(b, e)
+    leaves_model, size_model = (int(x) for x in d.ask(f"genleaves {sp(cb, u3)} {b} {e}").split(" "))
+    if c["mode"] == "exhaustive":
+        produced = {}
+        leaves = 0
+        for n, bounds, draws in _walk_draw_tree(im, s, u):
+            leaves += 1
+            produced.setdefault(n, draws)
+        ctx.count("gentree-leaves-executed", leaves)
+        ctx.eq("gen_random_id number of draw sequences", c, leaves, leaves_model)
+        ids = sorted(produced)
+        member = d.ask_many(f"spec_member {sp(cb, u3)} {b} {e} {n}" for n in ids)
+        extra = [n for n, r in zip(ids, member) if r != "1"]
+        if extra:
+            ctx.violation("gen_random_id produced a non-member", dict(c, draws=produced[extra[0]]), extra[:5], key="gen-non-member")
+        cands = _candidates(cb, u3, b, e)
+        replies = d.ask_many(f"spec_member {sp(cb, u3)} {b} {e} {n}" for n in cands)
+        missing = sorted(n for n, r in zip(cands, replies) if r == "1" and n not in produced)
+        if missing:
+            ctx.violation("a member of the subspace is produced by no admissible sequence of randbelow results (all "
+                          f"{leaves} sequences executed)", c, {"missing": missing[:6], "number_missing": len(missing)},
+                          key="gen-cannot-produce-member")
+    else:
+        leaves = 0
+        prefixes = 0
+        probe_bad = None
+        for n, bounds, draws in _walk_draw_tree(im, s, u, depth_limit=-1):
+            prefixes += 1
+            leaves += bounds[-1] if bounds else 1
+            if bounds and (prefixes % 997 == 1 or bounds[-1] != 256):
+                # the last draw must end the path whatever its value (checked for 1, n-1 here, 0 above)
+                for last in {1 % bounds[-1], bounds[-1] - 1}:
+                    log = []
+                    it = iter(draws[:-1] + [last])
+
+                    def randbelow(nn, _it=it, _log=log):
+                        dd = next(_it, 0)
+                        _log.append(nn)
+                        return dd
+
+                    orig = im.secrets.randbelow
+                    im.secrets.randbelow = randbelow
+                    try:
+                        nid = s.gen_random_id(u)
+                    finally:
+                        im.secrets.randbelow = orig
+                    if log != bounds:
+                        probe_bad = (draws, last, log)
+                    elif d.ask(f"spec_member {sp(cb, u3)} {b} {e} {nid}") != "1":
+                        ctx.violation("gen_random_id produced a non-member", dict(c, draws=draws[:-1] + [last]), nid, key="gen-non-member")
+        ctx.count("gentree-prefixes-executed", prefixes)
+        ctx.eq("gen_random_id number of draw sequences", c, leaves, leaves_model)
+        if probe_bad is not None:
+            ctx.count("gentree-not-judged:last-draw-does-not-end-the-path")
+        elif leaves < size_model:
+            ctx.violation(f"gen_random_id can consume only {leaves} different sequences of randbelow results but the subspace has "
+                          f"{size_model} members: some member can never be produced", c,
+                          {"draw_sequences": leaves, "members": size_model}, key="gen-cannot-produce-member")
 
 
 def _candidates(cb, u3, b, e):
@@ -349,6 +466,22 @@ def cases(ctx: Ctx):
             # force byte_2 == 0 branch
             yield {"k": "gen", "cb": cb, "u3": u3, "b": b, "e": e, "mode": "script", "draws": [rng.randrange(256), rng.randrange(256), 0, rng.randrange(255)]}
             yield {"k": "gen", "cb": cb, "u3": u3, "b": b, "e": e, "mode": "script", "draws": [rng.randrange(256), 0, 0, 254]}
+            # zero red byte with the extreme green values, in both draw orders (32-bit: b3 b0 b2 b1; 24-bit: b0 b2 b1)
+            yield {"k": "gen", "cb": cb, "u3": u3, "b": b, "e": e, "mode": "script", "draws": ["max", "max", "min", "max"]}
+            yield {"k": "gen", "cb": cb, "u3": u3, "b": b, "e": e, "mode": "script", "draws": ["max", "min", "max", "max"]}
+            yield {"k": "gen", "cb": cb, "u3": u3, "b": b, "e": e, "mode": "script", "draws": ["min", "min", "min", "min"]}
+    # whole draw trees: "can produce all members"
+    for (b, e) in boundary + rng.sample(subs, 10 if quick else 200):
+        yield {"k": "gentree", "cb": 0, "u3": True, "b": b, "e": e, "mode": "exhaustive"}
+        yield {"k": "gentree", "cb": 8, "u3": False, "b": b, "e": e, "mode": "exhaustive"}
+    for (b, e) in [(0, 2), (1, 2), (255, 256), (0, 3), (1, 3), (127, 129), (254, 256)] + ([(0, 256)] if quick else [(0, 256), (1, 256), (100, 140)]):
+        yield {"k": "gentree", "cb": 8, "u3": True, "b": b, "e": e, "mode": "exhaustive"}
+    for (b, e) in [(0, 2), (255, 256)] + ([] if quick else [(1, 2), (0, 3), (127, 129)]):
+        yield {"k": "gentree", "cb": 24, "u3": False, "b": b, "e": e, "mode": "exhaustive"}
+    for (b, e) in [(0, 2), (1, 2), (255, 256)] + ([] if quick else [(0, 3), (127, 128), (254, 256)]):
+        yield {"k": "gentree", "cb": 24, "u3": True, "b": b, "e": e, "mode": "count"}
+    for (b, e) in [(0, 3), (254, 256)] + ([] if quick else [(0, 256), (1, 256), (7, 9)]):
+        yield {"k": "gentree", "cb": 24, "u3": False, "b": b, "e": e, "mode": "count"}
     # database filter
     for _ in range(3 if quick else 25):
         ids = set()
@@ -371,7 +504,9 @@ def cases(ctx: Ctx):
 def run(ctx: Ctx):
     ctx.rule = ("cases: id byte-class products (7^4) + boundaries + random ids; all/boundary/random subspaces x spaces with every split "
                 "count class; membership probes at subspace boundaries; whole-list enumeration of enumerable subspaces vs candidate "
-                "planes; gen_random_id with scripted draws (min/max/random/forced zero byte); sqlite range filter on boundary ids. "
+                "planes; gen_random_id with scripted draws (min/max/random/forced zero byte, requested bounds compared); whole draw trees "
+                "of gen_random_id (every leaf executed for the enumerable spaces and one-byte 24-bit subspaces; leaf count vs member "
+                "count for 32-bit); sqlite range filter on boundary ids. "
                 "distinct = canonical JSON of the case; non-trivial = every case except the constant-string table")
     corpus_dir = __import__("pathlib").Path(__file__).resolve().parent.parent / "corpus" / "C10"
     if corpus_dir.is_dir():
